@@ -2,6 +2,7 @@
    Cases:  plain  <solid> <classify> <nfiles> <matched names> <archive>   -> OK <hex of stdout>
            jsonl  <solid> <nfiles> <matched> <archive>                    -> OK name-hex:kindchar:raw_size,...
            table  <solid> <classify> <nfiles> <matched> <archive>         -> OK kindchar:size|-:hex(name column),...
+           plainq / tableq: the same with -q (control characters of the printed name shown as '?')
            tree   <solid> <classify> <nfiles> <matched> <archive>         -> OK depth:hex(label),...   (display order)
            extract <nfiles> <matched> <archive>                           -> OK path-hex:kind:detail,... (sorted by path)
    Archive text: items joined by ';':  E|name-hex|kind|fSIZ or -|content length|target-hex ,  S ,  I|... *)
@@ -54,6 +55,8 @@ Definition s_jsonl (rs : list row) : bytes :=
                               dec (match r_size r with Some n => n | None => 0 end)) rs).
 Definition s_table (classify : bool) (rs : list row) : bytes :=
   join [comma] (map (fun r => kind_char (r_kind r) :: colon :: s_size (r_size r) ++ colon :: hex (display classify r)) rs).
+Definition s_table_q (classify : bool) (rs : list row) : bytes :=
+  join [comma] (map (fun r => kind_char (r_kind r) :: colon :: s_size (r_size r) ++ colon :: hex (display_q classify r)) rs).
 Definition s_tree (l : list (N * bytes)) : bytes :=
   join [comma] (map (fun dl => dec (fst dl) ++ colon :: hex (snd dl)) l).
 Fixpoint insert_path (x : bytes * (N * bytes)) (l : list (bytes * (N * bytes))) :=
@@ -75,6 +78,8 @@ Definition run_listcmd (op : bytes) (args : list bytes) : bytes :=
   | [solid; classify; nfiles; matched; arch] =>
     if bytes_eqb op (lit "plain") then go solid classify nfiles matched arch (fun s c nf sel a => hex (plain_output c (list_rows s nf sel a)))
     else if bytes_eqb op (lit "table") then go solid classify nfiles matched arch (fun s c nf sel a => s_table c (list_rows s nf sel a))
+    else if bytes_eqb op (lit "plainq") then go solid classify nfiles matched arch (fun s c nf sel a => hex (plain_output_q c (list_rows s nf sel a)))
+    else if bytes_eqb op (lit "tableq") then go solid classify nfiles matched arch (fun s c nf sel a => s_table_q c (list_rows s nf sel a))
     else if bytes_eqb op (lit "tree") then go solid classify nfiles matched arch (fun s c nf sel a => s_tree (tree_output c (list_rows s nf sel a)))
     else bad_case
   | [solid; nfiles; matched; arch] =>
